@@ -67,6 +67,9 @@ type genTimer struct {
 
 var c19Periods = []time.Duration{0, 1, 2, 1000, time.Millisecond, 7 * time.Millisecond, 100 * time.Millisecond, time.Second, 25 * time.Second}
 
+// periods beyond what other runtimes can express (2^31-1 ms is the limit of a JavaScript timer): "in a month", "never"
+var c19LongPeriods = []time.Duration{(1<<31 - 1) * time.Millisecond, (1 << 31) * time.Millisecond, 25 * 24 * time.Hour, 31 * 24 * time.Hour, 366 * 24 * time.Hour, 10000 * 24 * time.Hour}
+
 func genC19Script(rt *rapid.T, gates bool) []tOp {
 	var ops []tOp
 	var ts []genTimer
@@ -98,7 +101,9 @@ func genC19Script(rt *rapid.T, gates bool) []tOp {
 		switch k {
 		case "timeout", "interval":
 			var d time.Duration
-			if rapid.Bool().Draw(rt, l+".tbl") {
+			if rapid.IntRange(0, 9).Draw(rt, l+".long") == 0 {
+				d = rapid.SampledFrom(c19LongPeriods).Draw(rt, l+".dl")
+			} else if rapid.Bool().Draw(rt, l+".tbl") {
 				d = rapid.SampledFrom(c19Periods).Draw(rt, l+".d")
 			} else {
 				d = time.Duration(rapid.Int64Range(1, int64(2*time.Second)).Draw(rt, l+".dr"))
@@ -108,7 +113,7 @@ func genC19Script(rt *rapid.T, gates bool) []tOp {
 			}
 			cb := time.Duration(0)
 			if rapid.IntRange(0, 3).Draw(rt, l+".cbk") == 0 {
-				cb = time.Duration(rapid.Int64Range(1, int64(3*d)+1000).Draw(rt, l+".cb"))
+				cb = time.Duration(rapid.Int64Range(1, int64(3*min(d, 10*time.Second))+1000).Draw(rt, l+".cb"))
 			}
 			o := tOp{Kind: k, I: len(ts), D: d, Cb: cb}
 			switch rapid.IntRange(0, 7).Draw(rt, l+".variant") {
@@ -124,8 +129,12 @@ func genC19Script(rt *rapid.T, gates bool) []tOp {
 		case "advance":
 			cnt, minD := liveIntervals()
 			maxAdv := int64(30 * time.Second)
-			if cnt > 0 && int64(minD)*12 < maxAdv {
+			if cnt > 0 && minD < time.Hour && int64(minD)*12 < maxAdv {
 				maxAdv = int64(minD) * 12
+			}
+			if cnt == 0 && rapid.IntRange(0, 5).Draw(rt, l+".far") == 0 {
+				// weeks go by
+				maxAdv = int64(40 * 24 * time.Hour)
 			}
 			ops = append(ops, tOp{Kind: "advance", Mode: "rel", D: time.Duration(rapid.Int64Range(0, maxAdv).Draw(rt, l+".adv"))})
 		case "advanceDue":
@@ -601,6 +610,18 @@ func c19Property(t *testing.T, col *Collector, gates bool) func(rt *rapid.T) {
 				break
 			}
 		}
+		for _, o := range ops {
+			if (o.Kind == "interval" || o.Kind == "timeout") && o.D >= (1<<31-1)*time.Millisecond {
+				classes = append(classes, "period-of-weeks-or-more")
+				break
+			}
+		}
+		for _, o := range ops {
+			if o.Kind == "advance" && o.Mode == "rel" && o.D > 24*time.Hour {
+				classes = append(classes, "advance-of-days")
+				break
+			}
+		}
 		col.Case(fmt.Sprint(ops), nontrivial, map[string]any{"script": fmt.Sprint(ops), "classes": classes}, classes...)
 		if res.Panicked {
 			rt.Fatalf("panic in case %v: %v\n%s", ops, res.Value, res.Stack)
@@ -616,9 +637,9 @@ func c19Property(t *testing.T, col *Collector, gates bool) func(rt *rapid.T) {
 
 func TestC19Timers(t *testing.T) {
 	col := NewCollector("TestC19Timers",
-		"rapid: scripts of 2-14 operations over <=4 timers (SetTimeout/SetInterval with boundary-biased periods and callback running times, Refresh, Stop, ClearTimeout/ClearInterval incl. nil, two concurrent cancellations, cancellation/refresh issued by another goroutine at exactly the due instant, advances to due-1ns/due/due+1ns/random) executed in a synctest bubble next to a reference model; oracle: callback start instants equal the model's exactly (a call racing with the due instant makes that one start optional), every cancellation returns in zero virtual time, no goroutine left after cancelling everything. non-trivial: the script contains an advance to within 1ns of a due instant, a refresh of a pending timer, a concurrent cancellation or an operation at the due instant").Use(t)
+		"rapid: scripts of 2-14 operations over <=4 timers (SetTimeout/SetInterval with boundary-biased periods (0 ... 25 s, and periods of weeks to decades: 2^31-1 ms, 2^31 ms, 25 / 31 / 366 / 10000 days) and callback running times, Refresh, Stop, ClearTimeout/ClearInterval incl. nil, two concurrent cancellations, cancellation/refresh issued by another goroutine at exactly the due instant, advances to due-1ns/due/due+1ns/random) executed in a synctest bubble next to a reference model; oracle: callback start instants equal the model's exactly (a call racing with the due instant makes that one start optional), every cancellation returns in zero virtual time, no goroutine left after cancelling everything. non-trivial: the script contains an advance to within 1ns of a due instant, a refresh of a pending timer, a concurrent cancellation or an operation at the due instant").Use(t)
 	rapid.Check(t, c19Property(t, col, false))
-	col.RequireClasses(t, "advance.due-1", "advance.due", "advance.due+1", "refresh.pending", "refresh.fired-or-stopped", "concurrent-cancel", "clearAtDue", "refreshAtDue", "has-interval", "self-cancel-from-callback", "cancel-right-after-arm")
+	col.RequireClasses(t, "advance.due-1", "advance.due", "advance.due+1", "refresh.pending", "refresh.fired-or-stopped", "concurrent-cancel", "clearAtDue", "refreshAtDue", "has-interval", "self-cancel-from-callback", "cancel-right-after-arm", "period-of-weeks-or-more", "advance-of-days")
 }
 
 func TestC19TimersGated(t *testing.T) {
